@@ -11,7 +11,20 @@ props="$*"
 if [ -z "$props" ]; then props="$(python3 -c "import json;print(' '.join(json.load(open('$dir/meta.json')).get('check_with',[])))" 2>/dev/null)"; fi
 [ -n "$props" ] || props="C01 C02 C03 C04 C05 C06 C07 C08 C09 C10 C11 C12 C13 C14 C15 C16 C17 C18 C19"
 git -C /repo apply "$dir/patch.diff" || { echo "patch does not apply"; exit 2; }
-trap 'git -C /repo checkout -- . ; rm -rf /verif/evidence.seedtmp' EXIT
+# evidence/ and replays/ describe the unchanged tree: keep them out of a seed trial's way
+bak="$(mktemp -d /var/tmp/seedtrial.XXXXXX)"
+cp -a /verif/evidence "$bak/evidence"; [ -d /verif/replays ] && mv /verif/replays "$bak/replays"
+restore() {
+  git -C /repo checkout -- .
+  # keep the three smallest replay files of the trial next to the patch
+  rm -rf "$dir/replays"; mkdir -p "$dir/replays"
+  ls -Sr /verif/replays/*.json 2>/dev/null | head -3 | while read -r f; do cp "$f" "$dir/replays/"; done
+  rmdir "$dir/replays" 2>/dev/null
+  rm -rf /verif/evidence /verif/replays
+  cp -a "$bak/evidence" /verif/evidence; [ -d "$bak/replays" ] && cp -a "$bak/replays" /verif/replays
+  rm -rf "$bak"
+}
+trap restore EXIT
 caught=""
 for p in $props; do
   out="$(cd /verif && VERIF_SEED="${VERIF_SEED:-20260923}" ./check "$p" "${TIER:-quick}" 2>&1)"; rc=$?
